@@ -50,6 +50,8 @@ func (e Event) String() string {
 		return fmt.Sprintf("%d:%s", e.C, e.Op)
 	case "evict", "compact", "compactF", "rev", "rst":
 		return e.K
+	case "fu":
+		return fmt.Sprintf("%d:fu[%s]", e.C, e.Op)
 	default:
 		return fmt.Sprintf("%d:%s", e.C, e.K)
 	}
@@ -757,7 +759,7 @@ func (x *Exec) step(e Event) Step {
 			st.NoEffect = true
 			break
 		}
-		if n := len(x.Steps); n > 0 && x.Steps[n-1].Ev.K == "fu" && x.Steps[n-1].Ev.C == e.C {
+		if n := len(x.Steps); n > 0 && x.Steps[n-1].Ev.K == "fu" && x.Steps[n-1].Ev.C == e.C && x.Steps[n-1].Ev.Op == e.Op {
 			st.NoEffect = true // two in a row add nothing
 			break
 		}
@@ -766,6 +768,9 @@ func (x *Exec) step(e Event) Step {
 		var uerr error
 		uerr, panicked = guard(func() error {
 			return rep.Doc.Update(func(r *json.Object, p *presence.Presence) error {
+				if op := Ops[e.Op]; op != nil {
+					op.Apply(r, p, 900+len(x.Steps))
+				}
 				r.SetInteger("zz", 1)
 				return errFailedUpdate
 			})
